@@ -71,11 +71,26 @@ def pick(progs, n, seed, always=()):
     return chosen
 
 
+def pick_strat(progs, n, seed, min_per=10, always=()):
+    """Seed-rotated slice that takes at least min_per programs of every group (`grp`), the rest proportionally."""
+    groups = {}
+    for p in progs:
+        groups.setdefault(p.get("grp", ""), []).append(p)
+    out = []
+    total = len(progs)
+    for g in sorted(groups):
+        ps = groups[g]
+        k = max(min(min_per, len(ps)), int(round(n * len(ps) / total)))
+        out += pick(ps, k, seed, always)
+    return out
+
+
 def with_ids(progs, prefix):
     out = []
     for p in progs:
         q = dict(p)
-        q["id"] = gen.prog_id(prefix, {"src": p["src"], "grp": p.get("grp", "")})
+        q["id"] = gen.prog_id(prefix, {"src": p["src"], "grp": p.get("grp", ""), "src2": p.get("src2", ""), "files": p.get("filesrc", ""),
+                                       "decoys": p.get("decoys", ""), "dom": p.get("dom", "")})
         out.append(q)
     return out
 
@@ -174,7 +189,7 @@ def run_refine(ctx, progs, consts, module="Refine", cfg=None, opts=None, batch_s
             ctx.add("traces_validated_against_impl", 1)
             if len(s) > 6 and s[6].strip() == "2":
                 ctx.add("distinct_nontrivial", 1)
-    if unobs * 20 > len(items):
+    if unobs * 20 > len(items) and unobs >= 4:
         raise Machinery("%d of %d records are unobservable/unsupported (labels reworded or JSON shape changed?)" % (unobs, len(items)))
     if vacuous * 20 > len(items):
         raise Machinery("%d of %d records were never judged (vacuous run)" % (vacuous, len(items)))
@@ -199,14 +214,16 @@ def c01(ctx):
     progs = with_ids(gen.generate("GenScalar"), "sc")
     ctx.cov["corpus_size"] = len(progs)
     if ctx.tier == "quick":
-        sel = pick(progs, 260, ctx.seed, always=SMOKE.get("C01", ()))
+        sel = pick_strat(progs, 240, ctx.seed, min_per=16, always=SMOKE.get("C01", ()))
         consts = {"DomCap": 216}
     else:
-        sel = progs
+        sim = with_ids(gen.generate_sim("GenSim", 600, 12, 20260925), "sm")
+        ctx.cov["simulated_programs"] = len(sim)
+        sel = progs + sim
         consts = {"DomCap": 1000}
         ctx.cov["exhaustive"] = True
     ctx.cov["rule"] = ("programs = GenScalar exhaustive core (every ordered operator pair in both tree shapes, operand-kind matrix, "
-                       "unary/projection/literal/conditional forms, sharing patterns) rendered by the spec; each compiled by the real "
+                       "unary/projection/literal/conditional forms, sharing patterns) rendered by the spec, thorough adds 600 GenSim random SSA programs (TLC simulation mode, fixed seed); each compiled by the real "
                        "compiler; TLC explores Circuit(BP) from every valuation of the boundary domain until settled and compares "
                        "every unconsumed named result with the interpreter; non-trivial = the record showed >= 2 distinct expected observations")
     ctx.assumptions = ASSUME_BASE
@@ -218,7 +235,7 @@ def c02(ctx):
     progs = with_ids(gen.generate("GenBundle"), "bu")
     ctx.cov["corpus_size"] = len(progs)
     if ctx.tier == "quick":
-        sel = pick(progs, 130, ctx.seed, always=SMOKE.get("C02", ()))
+        sel = pick_strat(progs, 120, ctx.seed, min_per=12, always=SMOKE.get("C02", ()))
         consts = {"DomCap": 125}
     else:
         sel = progs
@@ -236,7 +253,7 @@ def mem_check(ctx, grps, vclause, nquick):
     progs = [p for p in with_ids(gen.generate("GenMem"), "me") if p["grp"] in grps]
     ctx.cov["corpus_size"] = len(progs)
     if ctx.tier == "quick":
-        sel = pick(progs, nquick, ctx.seed, always=SMOKE.get(ctx.pid, ()))
+        sel = pick_strat(progs, nquick, ctx.seed, min_per=5)
     else:
         sel = progs
         ctx.cov["exhaustive"] = True
@@ -257,7 +274,7 @@ def c03(ctx):
                        "item-typed cells, two independent and two chained cells); TLC explores ALL input histories (closure of ChangeInput "
                        "over the trimmed domain) of Circuit(BP) x abstract gated cell and compares every reader at every settled state: "
                        "0 before the first enabled write, follows v while c > 0, holds afterwards whatever v does")
-    mem_check(ctx, ("cell", "shared", "readers", "two"), "C03_value", 26)
+    mem_check(ctx, ("cell", "shared", "readers", "two", "cells"), "C03_value", 28)
 
 
 @prop("C04")
@@ -290,7 +307,7 @@ def c05(ctx):
     ctx.cov["rule"] = ("programs = GenMem latches (both argument orders x value 1 / constant / signal x set,reset as boolean signals, "
                        "comparisons on two inputs, comparisons on one input with disjoint / touching / overlapping thresholds); TLC explores "
                        "ALL input histories of Circuit(BP) x abstract SR/RS latch with the priority named first in the call")
-    mem_check(ctx, ("latch1", "latch2", "latchx"), "C05_value", 36)
+    mem_check(ctx, ("latch1", "latch2", "latchx", "latchs"), "C05_value", 44)
 
 
 def ent_progs(prefix):
@@ -354,7 +371,7 @@ def c10(ctx):
     bu = with_ids(gen.generate("GenBundle"), "bu")
     ctx.cov["corpus_size"] = len(sc) + len(bu)
     if ctx.tier == "quick":
-        sel = pick(sc, 170, ctx.seed + 2, always=SMOKE.get("C10", ())) + pick(bu, 80, ctx.seed + 2, always=SMOKE.get("C10", ()))
+        sel = pick_strat(sc, 160, ctx.seed + 2, min_per=10) + pick_strat(bu, 80, ctx.seed + 2, min_per=10)
         consts = {"DomCap": 125}
     else:
         sel = sc + bu
@@ -424,8 +441,10 @@ def c12(ctx):
     progs = with_ids(gen.generate("GenPair"), "pa")
     for p in progs:   # the id must distinguish the P-side and Q-side records of one interleaving
         p["id"] = gen.prog_id("pa", {"src": p["src"], "src2": p["src2"]})
+        if p.get("cins"):
+            p["grp"] = "far" + p["grp"]
     ctx.cov["corpus_size"] = len(progs)
-    sel = pick(progs, 120, ctx.seed, always=SMOKE.get("C12", ())) if ctx.tier == "quick" else progs
+    sel = pick_strat(progs, 110, ctx.seed, min_per=8) if ctx.tier == "quick" else progs
     ctx.cov["exhaustive"] = ctx.tier != "quick"
     ctx.cov["rule"] = ("pairs (P, Q) from GenPair (3 x 5 small programs over disjoint variable names that reuse the same explicit signals and "
                        "neighbouring tiles) x ALL order-preserving interleavings; the build of the interleaved program is run in lock-step with "
@@ -434,7 +453,12 @@ def c12(ctx):
     ctx.assumptions = ASSUME_BASE
 
     def item(p, rs):
-        return twin_item(p, rs, dom=p["dom"])
+        it = twin_item(p, rs, dom=p["dom"])
+        if p.get("cins"):
+            items = sorted({c["item"] for c in p["cins"]})
+            it["cins"] = p["cins"]
+            it["bps"] = [prep_bp(rs[""]["bp"], extra=items), prep_bp(rs["#twin"]["bp"], extra=items)]
+        return it
     run_refine(ctx, sel, {"DomCap": 700}, item_fn=item, variants=[("", {}), ("#twin", {"__twin": True})], batch_size=20)
 
 
@@ -749,7 +773,12 @@ def c19(ctx):
     quick = ctx.tier == "quick"
     base = layout_corpus(ctx, 3 if quick else 10)
     if quick:
-        base = pick(base, 22, ctx.seed)
+        base = pick(base, 20, ctx.seed)
+    # programs whose sources take part in several wire merges (bundle merges of entity outputs, same-typed sums): colour locking
+    merges = [p for p in with_ids(gen.generate("GenEntity"), "en") if p["grp"] == "c06:cont" and "tot" in p["src"]]
+    merges += [p for p in with_ids(gen.generate("GenScalar"), "sc") if p["grp"] in ("twocons",)]
+    have = {p["id"] for p in base}
+    base += [p for p in merges if p["id"] not in have]
     ctx.cov["corpus_size"] = len(base)
     ctx.cov["exhaustive"] = False
     ctx.cov["rule"] = ("programs = GenLayout families + a slice of every other family; each compiled under 8 (quick) / 12 (thorough) variations: "
@@ -764,6 +793,8 @@ def c19(ctx):
         ("ref", "0", {}),
         ("hashseed1", "1", {}),
         ("hashseed2", "2", {}),
+        ("hashseed4", "4", {}),
+        ("hashseed5", "5", {}),
         ("cwd", "0", {"cwd": "/"}),
         ("solver-seed", "0", {"layout": dict(det, seed=23)}),
         ("tiny-budget", "0", {"layout": dict(det, dtime=0.02)}),
@@ -771,7 +802,7 @@ def c19(ctx):
         ("after-unrelated", "0", {"pre_src": UNRELATED}),
     ]
     if not quick:
-        variations += [("hashseed3", "3", {}), ("relaxed-ladder", "0", {"layout": dict(det, solve=["none", "none", "none"])}),
+        variations += [("hashseed3", "3", {}), ("hashseed6", "6", {}), ("hashseed7", "7", {}), ("relaxed-ladder", "0", {"layout": dict(det, solve=["none", "none", "none"])}),
                        ("routing-retry", "0", {"layout": dict(det, route=[False])}), ("natural-1s", "1", {"layout": {"wall": 1}})]
     results = {}
     for hs in sorted({v[1] for v in variations}):
@@ -904,7 +935,8 @@ def c07(ctx):
     confs = gen.generate("GenInvoke", deps=())
     confs.sort(key=lambda c: json.dumps(c, sort_keys=True))
     progs = []
-    for mod, pref, n, filt in (("GenScalar", "sc", 6, lambda p: p["grp"] in ("form", "share")), ("GenBundle", "bu", 4, None),
+    for mod, pref, n, filt in (("GenScalar", "sc", 3, lambda p: p["grp"] == "twocons"), ("GenScalar", "sc", 5, lambda p: p["grp"] in ("form", "share", "logic")),
+                               ("GenBundle", "bu", 4, None),
                                ("GenEntity", "en", 5, lambda p: p["grp"].startswith("c06:")), ("GenMem", "me", 3, lambda p: p["grp"] in ("cell", "latch1")),
                                ("GenLayout", "gl", 3, None), ("GenFL", "fl", 3, lambda p: p.get("mode") != "hist")):
         ps = with_ids(gen.generate(mod), pref)
@@ -1133,17 +1165,22 @@ def c17(ctx):
     other = os.path.join(ctx.wd, "elsewhere")
     os.makedirs(other, exist_ok=True)
     for gi, p in enumerate(graphs):
-        d = os.path.join(ctx.wd, "imp%d" % gi)
+        top = os.path.join(ctx.wd, "imp%d" % gi)
+        d = os.path.join(top, p["subdir"]) if p.get("subdir") else top
         os.makedirs(d, exist_ok=True)
         for f, txt in p["filesrc"].items():
             with open(os.path.join(d, f), "w") as fh:
                 fh.write(txt)
+        for f, txt in (p.get("decoys") or {}).items():      # same-named, different files in the working directory
+            with open(os.path.join(top, f), "w") as fh:
+                fh.write(txt)
         with open(os.path.join(d, "main.facto"), "w") as fh:
             fh.write(p["src"])
-        for cw, tag in ((d, "here"), (other, "elsewhere")):
+        rel = os.path.join(p["subdir"], "main.facto") if p.get("subdir") else "main.facto"
+        for cw, tag in ((top, "here"), (other, "elsewhere")):
             q = dict(p)
             q["id"] = p["id"] + "-" + tag
-            q["job"] = {"source_name": os.path.join(d, "main.facto") if tag == "elsewhere" else "main.facto", "cwd": cw, "trace": True, "tracedir": ctx.wd}
+            q["job"] = {"source_name": os.path.join(d, "main.facto") if tag == "elsewhere" else rel, "cwd": cw, "trace": True, "tracedir": ctx.wd}
             recs.append(q)
 
     def item(p, rs):
